@@ -100,8 +100,55 @@ func runC10Seq(r *Run, seed int64) {
 		ch := rng.Intn(2)
 		sp := spell(rng, ch, "")
 		chain := pick(rng, "btc", "lbtc")
-		op := pick(rng, "local-out", "local-in", "req-in", "req-out", "cancel", "window-req", "restart")
+		op := pick(rng, "local-out", "local-in", "req-in", "req-out", "cancel", "window-req", "restart", "advance", "advance", "restart-faulty")
 		switch op {
+		case "advance":
+			// the peer takes the next honest step of one live swap in which the node is the maker, so that the node
+			// funds the swap (a funded maker answers a later cancel by waiting for the CSV: still non-terminal)
+			if len(live) == 0 {
+				continue
+			}
+			lid := live[rng.Intn(len(live))]
+			id, _ := swap.ParseSwapIdFromString(lid)
+			rec := a.StoredSwap(lid)
+			if rec == nil {
+				continue
+			}
+			switch string(rec.Current) {
+			case "State_SwapInSender_AwaitAgreement":
+				k, _ := btcec.NewPrivateKey()
+				mal.Send("alice", ref.MsgSwapInAgreement, &swap.SwapInAgreementMessage{ProtocolVersion: 7, SwapId: id, Pubkey: hx(k.PubKey().SerializeCompressed()), Premium: 0})
+				w.Run()
+				hist = append(hist, "advance(agreement)")
+			case "State_SwapOutReceiver_AwaitFeeInvoicePayment":
+				for _, m := range mal.Inbox {
+					if m.Type == ref.MsgSwapOutAgreement && strings.Contains(string(m.Payload), lid) {
+						var ag swap.SwapOutAgreementMessage
+						json.Unmarshal(m.Payload, &ag)
+						w.LN.PeerPay(mal.ID, ag.Payreq)
+					}
+				}
+				w.Run()
+				hist = append(hist, "advance(fee-paid)")
+			default:
+				continue
+			}
+			if rec2 := a.StoredSwap(lid); rec2 != nil {
+				r.Seen("seq/advance/now=" + string(rec2.Current))
+			}
+		case "restart-faulty":
+			// restart while a service the recovery of a funded maker needs is failing (wallet script lookup): the
+			// swap cannot be resumed now, but it is not finished either
+			a.Fault = func(op string) error {
+				if strings.HasSuffix(op, ".outputscript") {
+					return fmt.Errorf("injected: wallet not ready")
+				}
+				return nil
+			}
+			a.Restart()
+			w.Run()
+			a.Fault = nil
+			hist = append(hist, "restart-faulty")
 		case "local-out", "local-in":
 			busy := len(c10Groups(a)[sim.NormScid(sp)]) > 0
 			var err error
